@@ -477,6 +477,7 @@ def slWhy (tbl : Option (List (Bool × SlRule))) (q : SlReq SStr) : String :=
     else if !r.ek.isEmpty && isExpired then "expired"
     else if sum.isEmpty then "nochecksum"
     else if idealEncode (exprValue slOps q r.nodes) = sum then "valid"
+    else if sum == [Atom.m] then "checksum-spelling"   -- decodes like / looks like the right one, but is not the string
     else "badchecksum"
 
 def runSlink (f : List String) (impl : String) : Ans :=
@@ -488,7 +489,7 @@ def runSlink (f : List String) (impl : String) : Ans :=
       let m := renderOutcome (slHandler slOps idealEncode symAtoi slNow tbl q)
       let why := slWhy tbl q
       { model := m, verdict := judge "sl" m impl why,
-        tags := ["sl", "sl-" ++ why] ++ (if why == "valid" || why == "badchecksum" || why == "expired" then ["nt"] else []) }
+        tags := ["sl", "sl-" ++ why] ++ (if why == "valid" || why == "badchecksum" || why == "checksum-spelling" || why == "expired" then ["nt"] else []) }
     | _, _, _ => bad
   | _ => bad
 
